@@ -460,8 +460,8 @@ def describe_exception(exc, repo=None):
         if not os.path.isabs(fr.filename):
             continue  # compiled extension frames carry relative pseudo paths (numpy/random/_generator.pyx)
         fn = os.path.abspath(fr.filename)
-        if fn.startswith(DEPS_DIR + os.sep):
-            continue  # contract-library wrappers sit between repository frames
+        if fn.startswith(DEPS_DIR + os.sep) or fn.endswith(os.sep + os.path.join("vlib", "choice_rng.py")):
+            continue  # contract-library wrappers sit between repository frames; ChoiceRNG stands in for numpy
         if fn.startswith(VERIF_DIR + os.sep):
             return type(exc).__name__, "outside-repo", str(exc)[:200]
         if fn.startswith(repo + os.sep) and (os.sep + "tests" + os.sep) not in fn:
